@@ -384,7 +384,7 @@ func Build(o Opts) (*Persona, error) {
 	for k, v := range extra {
 		sodDGs[k] = v
 	}
-	// the order of the hash list and whether the link reuses its receive buffer follow from the seed
+	// the order of the hash list follows from the seed
 	// (no further draws, so every other choice of an existing persona stays what it was)
 	sod, err := pki.SignSOD(sodDGs, issuer.SODOptions{HashOrder: int(o.Seed[len(o.Seed)-1]) % 4})
 	if err != nil {
@@ -523,7 +523,6 @@ func Build(o Opts) (*Persona, error) {
 	dfFiles[chipsim.FidCOM] = com.Bytes
 	p.Files["COM"], p.Files["SOD"] = com.Bytes, sod
 	cfg.MF, cfg.DF = mf, dfFiles
-	cfg.ReuseRxBuffer = len(o.Seed) > 1 && o.Seed[1]&1 == 1
 	if o.WithholdSW != 0 {
 		cfg.AbsentSW = map[uint16]uint16{}
 		if o.WithholdDG14 {
